@@ -3,7 +3,7 @@
    Models: Model/ValueSet.v, Model/ConstraintTable.v (hand models of
    vc2_conformance/constraint_table.py and decoder/assertions.py assert_level_constraint; tie C). *)
 From Coq Require Import ZArith List Bool Lia Permutation.
-From VC2 Require Import Model.ValueSet Proofs.ValueSetProofs.
+From VC2 Require Import Model.ValueSet Model.ConstraintTable Proofs.ValueSetProofs Proofs.ConstraintTableProofs.
 Import ListNotations.
 Open Scope Z_scope.
 
@@ -25,8 +25,146 @@ Proof. exact builds_build. Qed.
 Theorem C17_vs_any : forall e a, builds e a -> (a = Any <-> has_any e = true).
 Proof. exact builds_any. Qed.
 
+(* Representation invariant behind add_range's SINGLE merging pass: whatever the operations
+   and iteration orders, the ranges (all lo <= hi) stay duplicate free and pairwise
+   non-overlapping, and no listed value lies inside a range (values are swallowed by ranges). *)
+Theorem C17_vs_invariant : forall e a, builds e a -> expr_wf e -> inv_vs a.
+Proof. exact builds_inv. Qed.
+
+(* iter_values() lists exactly the members *)
+Theorem C17_iter_values_sem : forall s v, In v (st_iter_values s) <-> st_contains s v = true.
+Proof. exact iter_values_sem. Qed.
+
+(* every range lo <= hi ("inclusive ranges") stays so, whatever the operations *)
+Theorem C17_wf_preserved : forall e a, builds e a -> expr_wf e -> wf_vs a.
+Proof. exact builds_wf. Qed.
+
+(* is_disjoint (both classes, both argument orders) answers correctly on sets whose ranges
+   have lo <= hi -- in particular on every set built from such ranges (C17_wf_preserved) *)
+Theorem C17_disjoint_correct : forall a b : vset, wf_vs a -> wf_vs b ->
+  (is_disjoint a b = true <-> ~ exists v, contains a v = true /\ contains b v = true).
+Proof. exact disjoint_correct. Qed.
+
+(* RECORDED, outside the property (an inverted range is not an "inclusive range"): ValueSet((5, 3))
+   holds nothing (C17_vs_sem covers that), yet is_disjoint inspects its end points and answers
+   "not disjoint" against {5} and against AnyValue.  The real code behaves the same. *)
+Theorem C17_disjoint_inverted_refuted : exists a b : vset,
+  (forall v, contains a v = false) /\ is_disjoint a b = false /\ is_disjoint b a = false /\ is_disjoint a Any = false.
+Proof.
+  exists (build (EAddR EEmpty 5 3)), (build (EAddV EEmpty 5)).
+  exact (let '(conj h1 (conj h2 (conj h3 h4))) := disjoint_inverted_witness in conj h4 (conj h1 (conj h2 h3))).
+Qed.
+
+(* ---- constraint tables ------------------------------------------------------------------
+   'catch-all' in the code = a column that is the EMPTY dictionary (filter_constraint_table:
+   `or len(allowed_combination) == 0  # Special case: 'catch all' rule`); no_catch_all T says
+   no column of T is empty.  AnyValue cells are allowed everywhere. *)
+Theorem C17_allowed_iff : forall (T : table) (k : key) (vals : assignment) (v : Z),
+  no_catch_all T -> ~ In k (keys vals) ->
+  (contains (allowed_values_for T k vals Any) v = true
+   <-> is_allowed_combination T (dict_set vals k v) = true).
+Proof. exact allowed_iff. Qed.
+
+(* for EVERY table: the allowed values are those listed for the key by a column matching the chosen values *)
+Theorem C17_allowed_values_exact : forall T k vals v,
+  contains (allowed_values_for T k vals Any) v = true
+  <-> exists e, In e T /\ matches e vals = true /\ entry_has e k v = true.
+Proof. exact avf_contains. Qed.
+
+(* the any_value argument is substituted exactly when a matching column holds AnyValue for the key *)
+Theorem C17_allowed_any_value : forall T k vals av,
+  (allowed_values_for T k vals Any = Any <->
+     exists e, In e (filter_constraint_table T vals) /\ lookup e k = Some Any)
+  /\ (allowed_values_for T k vals Any = Any -> allowed_values_for T k vals av = av)
+  /\ (allowed_values_for T k vals Any <> Any -> allowed_values_for T k vals av = allowed_values_for T k vals Any).
+Proof. exact avf_any_value. Qed.
+
+(* both hypotheses of C17_allowed_iff are needed *)
+Theorem C17_allowed_iff_needs_no_catch_all : exists T k vals v, ~ In k (keys vals) /\
+  contains (allowed_values_for T k vals Any) v = false /\ is_allowed_combination T (dict_set vals k v) = true.
+Proof.
+  exists [[]; [(0, VS (mkVS [1] []))]], 0, [], 5.
+  exact (conj (fun H : In 0 (keys (@nil (key * Z))) => H) allowed_iff_catch_all_witness).
+Qed.
+Theorem C17_allowed_iff_needs_fresh_key : exists T k vals v, no_catch_all T /\
+  contains (allowed_values_for T k vals Any) v = false /\ is_allowed_combination T (dict_set vals k v) = true.
+Proof. exists [[(0, VS (mkVS [1] []))]; [(0, VS (mkVS [2] []))]], 0, [(0, 1)], 2. exact allowed_iff_key_chosen_witness. Qed.
+
+(* The validator (assert_level_constraint, one call per value in stream order): a sequence of
+   DISTINCT keys is accepted exactly when every non-empty prefix is an allowed combination; it
+   then has recorded exactly the sequence.  (The empty prefix is excluded: nothing is checked
+   before the first value, while is_allowed_combination [] {} is False.) *)
+Theorem C17_incremental_iff : forall (T : table) (kvs : list (key * Z)),
+  no_catch_all T -> NoDup (keys kvs) ->
+  (level_check T kvs <> None
+   <-> forall n, (0 < n <= length kvs)%nat -> is_allowed_combination T (firstn n kvs) = true)
+  /\ (level_check T kvs <> None -> level_check T kvs = Some kvs).
+Proof. exact incremental_iff. Qed.
+
+(* ... equivalently the whole-dictionary check *)
+Theorem C17_incremental_whole : forall T kvs, no_catch_all T -> NoDup (keys kvs) ->
+  (level_check T kvs <> None <-> kvs = [] \/ is_allowed_combination T kvs = true).
+Proof. exact incremental_whole. Qed.
+
+(* ANY sequence, keys may repeat (second sequence header, next picture), any table: each call
+   returns normally exactly when ONE column allows both the dictionary before and after it *)
+Theorem C17_level_step_iff : forall T cv k v,
+  (level_step T cv (k, v) <> None
+   <-> exists e, In e T /\ matches e cv = true /\ matches e (dict_set cv k v) = true)
+  /\ (level_step T cv (k, v) <> None -> level_step T cv (k, v) = Some (dict_set cv k v)).
+Proof. exact level_step_iff. Qed.
+
+Theorem C17_incremental_general : forall T kvs,
+  (level_check T kvs <> None
+   <-> forall n, (n < length kvs)%nat ->
+       exists e, In e T /\ matches e (dict_of (firstn n kvs)) = true
+                 /\ matches e (dict_of (firstn (S n) kvs)) = true)
+  /\ (level_check T kvs <> None -> level_check T kvs = Some (dict_of kvs)).
+Proof. exact level_check_general. Qed.
+
+(* RECORDED: dropping NoDup from C17_incremental_iff is false -- with a repeated key the
+   one-at-a-time check is stricter than "every prefix dictionary is allowed" (the old and the
+   new value must be allowed by the same column).  The real code behaves the same (harness). *)
+Theorem C17_incremental_repeated_key_refuted : exists (T : table) (kvs : list (key * Z)),
+  no_catch_all T
+  /\ (forall n, (0 < n <= length kvs)%nat -> is_allowed_combination T (dict_of (firstn n kvs)) = true)
+  /\ level_check T kvs = None.
+Proof.
+  exists [[(0, VS (mkVS [1] [])); (1, VS (mkVS [5] []))]; [(0, VS (mkVS [2] [])); (1, VS (mkVS [5] []))]],
+         [(0, 1); (1, 5); (0, 2)].
+  exact incremental_repeated_key_witness.
+Qed.
+
+(* ---- tables read from CSV (abstract cells; text tokenisation is outside the model) ---------
+   The table has as many columns as the longest row; in column i the set under key k is what
+   the cell of the LAST row for k reaching column i says, a ditto cell saying what the cell to
+   its left says (nothing, left of the first cell), 'any' being the AnyValue object and an item
+   list a plain ValueSet holding exactly the listed integers, inclusive ranges and TRUE=1/FALSE=0;
+   keys with no such row are absent. *)
+Theorem C17_csv_sem : forall rows : list row,
+  length (read_rows rows) = fold_left (fun m r => Nat.max m (length (snd r))) rows 0%nat
+  /\ forall i k, cell_rel (lookup (nth i (read_rows rows) []) k) (spec_cell rows i k).
+Proof. exact csv_sem. Qed.
+
+(* a table read from CSV has no catch-all column, so C17_allowed_iff / C17_incremental_iff apply to it *)
+Theorem C17_csv_no_catch_all : forall rows, no_catch_all (read_rows rows).
+Proof. exact csv_no_catch_all. Qed.
+
 (* non-vacuity: a chain of overlapping and adjacent ranges, a swallowed value, a union *)
 Example C17_example :
   let e := EUnion (EAddR (EAddR (EAddV (EAddR EEmpty 0 1) 4) 6 7) 1 6) (EAddV (EAddR EEmpty 9 10) 12) in
   build e = VS (mkVS [12] [(9, 10); (0, 7)]) /\ contains (build e) 4 = true /\ contains (build e) 8 = false.
 Proof. vm_compute. repeat split; reflexivity. Qed.
+
+Example C17_example_table :
+  let T : table := [[(0, VS (mkVS [1] [(4, 6)])); (1, Any)]; [(0, VS (mkVS [2] [])); (1, VS (mkVS [7] []))]] in
+  no_catch_all T /\ level_check T [(1, 7); (0, 2)] = Some [(1, 7); (0, 2)] /\ level_check T [(0, 5); (1, 7)] = Some [(0, 5); (1, 7)]
+  /\ level_check T [(0, 2); (1, 8)] = None /\ allowed_values_for T 0 [(1, 7)] Any = VS (mkVS [2; 1] [(4, 6)]).
+Proof. split; [intros e [<-|[<-|[]]]; discriminate|vm_compute; repeat split; reflexivity]. Qed.
+
+Example C17_example_csv :
+  read_rows [(7, [Items [IVal 3; IRange 5 9; IBool true]; Ditto; CAny; Ditto]); (8, [Ditto; Items []]); (7, [Items [IVal 2]])]
+  = [[(7, VS (mkVS [2] [])); (8, VS (mkVS [] []))];
+     [(7, VS (mkVS [3; 1] [(5, 9)])); (8, VS (mkVS [] []))];
+     [(7, Any)]; [(7, Any)]].
+Proof. vm_compute. reflexivity. Qed.
